@@ -219,3 +219,64 @@ def op_transform_columns(job):
 
 
 OPS = {k[3:]: v for k, v in list(globals().items()) if k.startswith('op_')}
+
+
+def op_rank3mr(job):
+    import warnings
+    from outrank.algorithms.importance_estimator import rank_features_3MR
+    out = []
+    with warnings.catch_warnings():
+        warnings.simplefilter('ignore')
+        for it in job['items']:
+            rel = dict(it['rel'])
+            red = {(g, f): v for g, f, v in it['red']}
+            rln = {(g, f): v for g, f, v in it['rln']}
+            try:
+                df = rank_features_3MR(rel, red, rln, it['strategy'], it['alpha'], it['beta'])
+                out.append({'order': [str(x) if x is not None else None for x in df['Feature'].tolist()], 'ranks': [int(x) for x in df['3MR_Ranking'].tolist()]})
+            except Exception as e:  # noqa: BLE001
+                out.append({'error': repr(e)[:200]})
+    return out
+
+
+OPS = {k[3:]: v for k, v in list(globals().items()) if k.startswith('op_')}
+
+
+def op_summary_run(job):
+    import argparse
+    import os
+    import shutil
+    import tempfile
+    import logging
+    import pandas as pd
+    from outrank.task_summary import outrank_task_result_summary
+    logging.disable(logging.CRITICAL)
+    out = []
+    for it in job['items']:
+        wd = tempfile.mkdtemp(prefix='sum.')
+        try:
+            pd.DataFrame(it['table'], columns=['FeatureA', 'FeatureB', 'Score']).to_csv(os.path.join(wd, 'pairwise_ranks.tsv'), sep='\t', index=False)
+            args = argparse.Namespace(output_folder=wd, label_column=it['label'], heuristic=it['heuristic'], interaction_order=it['order'], tldr=False)
+            try:
+                outrank_task_result_summary(args)
+            except Exception as e:  # noqa: BLE001
+                out.append({'error': repr(e)[:300]})
+                continue
+            s = pd.read_csv(os.path.join(wd, 'feature_singles.tsv'), sep='\t', keep_default_na=False)
+            fl = lambda v: float('nan') if v == '' else float(v)
+            singles = [[str(r[0]), fl(r[1])] for r in s.itertuples(index=False)]
+            agg = None
+            p = os.path.join(wd, 'feature_singles_aggregated.tsv')
+            if os.path.exists(p):
+                try:
+                    a = pd.read_csv(p, sep='\t', keep_default_na=False)
+                    agg = [[str(r[0]), fl(r[1])] for r in a.itertuples(index=False)]
+                except Exception:  # empty file
+                    agg = []
+            out.append({'singles': singles, 'agg': agg, 'score_column': list(s.columns)[1] if len(s.columns) > 1 else None})
+        finally:
+            shutil.rmtree(wd, ignore_errors=True)
+    return out
+
+
+OPS = {k[3:]: v for k, v in list(globals().items()) if k.startswith('op_')}
